@@ -143,6 +143,13 @@ def check_C05(chk):
                                  Lens="<- L4812" if thorough else "<- L48", Cap="= 16" if thorough else "= 12"),
        timeout=3000, needs=("FillStream", "FillErr", "FillEof", "TryDecode"))
     mc(chk, "c05_short", consts(Classes="<- ClsShort", Verifies="<- GateOn"))
+    # liveness under weak fairness of the read loop (unconstrained FairSpec): every frame that arrived is eventually delivered
+    cfg = write_cfg("c05_live", "FairSpec", consts(MaxFrames="= 2", Classes="<- ClsUdp", Verifies="<- GateOn", KeepHist="= FALSE"), properties=["AllDelivered"])
+    r = tlc("MC_Conn", cfg, "c05_live", workers=4, timeout=900, coverage=False)
+    if r.violated:
+        raise ToolError(f"liveness AllDelivered fails on the specification of record (see {r.out_path})")
+    chk.add_tlc("c05_live", r)
+    log(f"[tlc] c05_live: AllDelivered holds under fairness ({r.distinct} states, {r.wall:.0f}s)")
     # non-vacuity: a connection that loses the tail of a datagram / drops the buffer must be caught by the same invariants
     mc(chk, "c05_mut_direct", consts(Transports="<- TUdp", Classes="<- ClsUdp", Flavors="<- OnlyTokio", Verifies="<- GateOn",
                                      MaxFrames="= 4", UdpPolicy='= "direct"'), expect_violation="NoLoss")
